@@ -22,6 +22,8 @@ SPECS = [
     "host_streamhandler=p2p/host/basic/basic_host.go:BasicHost.newStreamHandler",
     "tcp_dial=p2p/transport/tcp/tcp.go:TcpTransport.DialWithUpdates",
     "tcp_dial_scope=p2p/transport/tcp/tcp.go:TcpTransport.dialWithScope",
+    "ws_dial=p2p/transport/websocket/websocket.go:WebsocketTransport.Dial",
+    "ws_dial_scope=p2p/transport/websocket/websocket.go:WebsocketTransport.dialWithScope",
     "conn_newstream=p2p/net/swarm/swarm_conn.go:Conn.NewStream",
     "conn_open_add=p2p/net/swarm/swarm_conn.go:Conn.openAndAddStream",
     "conn_addstream=p2p/net/swarm/swarm_conn.go:Conn.addStream",
